@@ -277,7 +277,10 @@ def drop_identities(stmts: List[ast.stmt]) -> List[ast.stmt]:
                 setattr(s, fld, new)
         if isinstance(s, ast.If) and len(s.body) == 1 and isinstance(s.body[0], ast.Pass) and s.orelse:
             # `if c: pass else: X`  ->  `if not c: X`
-            s.test = ast.copy_location(ast.UnaryOp(op=ast.Not(), operand=s.test), s.test)
+            if isinstance(s.test, ast.UnaryOp) and isinstance(s.test.op, ast.Not):
+                s.test = s.test.operand
+            else:
+                s.test = ast.copy_location(ast.UnaryOp(op=ast.Not(), operand=s.test), s.test)
             s.body, s.orelse = s.orelse, []
         out.append(s)
     return out
@@ -340,7 +343,17 @@ def thread_temporary(repl: List[ast.stmt], t: str, rest: List[ast.stmt], caller:
         none_body = _none_test(rest[k], t)
         k += 1
     unpack = single = None
-    if k < len(rest) and isinstance(rest[k], ast.Assign) and len(rest[k].targets) == 1 and isinstance(rest[k].value, ast.Name) and rest[k].value.id == t:
+    # `if t is not None: x = t` (no else): the not-None leaves get `x = <value>`, the None leaves nothing
+    if none_body is None and k < len(rest) and isinstance(rest[k], ast.If) and not rest[k].orelse and len(rest[k].body) == 1:
+        c = rest[k].test
+        pos = (isinstance(c, ast.Compare) and len(c.ops) == 1 and isinstance(c.left, ast.Name) and c.left.id == t and isinstance(c.ops[0], (ast.IsNot, ast.NotEq))
+               and isinstance(c.comparators[0], ast.Constant) and c.comparators[0].value is None)
+        b0 = rest[k].body[0]
+        if pos and isinstance(b0, ast.Assign) and len(b0.targets) == 1 and isinstance(b0.targets[0], ast.Name) and isinstance(b0.value, ast.Name) and b0.value.id == t:
+            single = b0
+            none_body = [ast.copy_location(ast.Pass(), rest[k])]
+            k += 1
+    if single is None and k < len(rest) and isinstance(rest[k], ast.Assign) and len(rest[k].targets) == 1 and isinstance(rest[k].value, ast.Name) and rest[k].value.id == t:
         tg = rest[k].targets[0]
         if isinstance(tg, (ast.Tuple, ast.List)) and all(isinstance(e, ast.Name) for e in tg.elts):
             unpack = rest[k]
